@@ -13,6 +13,7 @@ import DdnnfVerif.Model.Atomic
 import DdnnfVerif.Model.UnionFind
 import DdnnfVerif.Model.D4Load
 import DdnnfVerif.Model.D4Conv
+import DdnnfVerif.Model.Lex
 import DdnnfVerif.Model.StreamMsg
 import DdnnfVerif.Model.Edit
 import DdnnfVerif.Model.TWise
@@ -146,6 +147,43 @@ def d4loadAnswer (args : List String) : String :=
         if err then "panic" else s!"{n} " ++ "|".intercalate (nodes.map fmtNode)
   | _ => "bad-args"
 
+/-- raw text lines travel through the word protocol encoded: blank as `_`, tab as `~`, an empty line as `%` -/
+def decodeRaw (w : String) : List Char :=
+  if w == "%" then [] else w.toList.map fun c => if c == '_' then ' ' else if c == '~' then '\t' else c
+
+/-- `q d4text <total_features> | enc enc …` : lexers (character level) + loader on the raw lines of a d4 file -/
+def d4textAnswer (args : List String) : String :=
+  match args with
+  | tf :: "|" :: rest =>
+      match Lex.parseD4Text (rest.map decodeRaw) with
+      | none => "panic"
+      | some parsed =>
+          let (n, nodes, err) := D4.load parsed (tf.toNat?.getD 0)
+          if err then "panic" else s!"{n} " ++ "|".intercalate (nodes.map fmtNode)
+  | _ => "bad-args"
+
+/-- `q c2dtext | enc enc …` : header test on the trimmed first line, lexer on every other line, flattening;
+`not-c2d` if the first line is no header (the code then takes the d4 loader) -/
+def c2dtextAnswer (args : List String) : String :=
+  match args with
+  | "|" :: rest =>
+      let lines := rest.map decodeRaw
+      match lines with
+      | [] => "panic"
+      | first :: _ =>
+          match Lex.lexC2d (Lex.trimAscii first) with
+          | .ok (.header _ _ _) =>
+              match Lex.parseC2dText lines with
+              | some (v, file) =>
+                  -- `node_indices[child]`: a child index that is not an earlier line panics
+                  if (file.zipIdx.all fun (nd, i) => (children nd).all fun c => c < i) && !file.isEmpty then
+                    s!"{v} " ++ "|".intercalate ((flatten file).map fmtNode)
+                  else "panic"
+              | none => "panic"
+          | .panic => "panic"
+          | _ => "not-c2d"
+  | _ => "bad-args"
+
 /-- `q d4conv <total_features> | line / line / …` : do the hypotheses of the loader theorem hold for the
 text, and if so, does its conclusion (checked by `wfB` on the loaded array)? -/
 def d4convAnswer (args : List String) : String :=
@@ -239,6 +277,8 @@ def answer (nodes : List NType) (n : Nat) (kind : String) (args : List String) :
       | [] => "bad-args"
   | "d4load" => d4loadAnswer args
   | "d4conv" => d4convAnswer args
+  | "d4text" => d4textAnswer args
+  | "c2dtext" => c2dtextAnswer args
   | "hasparents" =>
       -- every node except the root is a child of a later node (hypothesis `MS.HasParents` of the scratch-state theorems)
       toString ((List.range (nodes.length - 1)).all fun j =>
